@@ -116,6 +116,9 @@ class Origins:
 def same_place(a, b):
     """syntactic equality of two place/value expressions modulo refs/derefs/coercions"""
     a, b = F.strip(a), F.strip(b)
+    if {a.get("k"), b.get("k")} == {"Var", "Upvar"}:
+        # a closure's capture of the enclosing function's variable (closures share the variable ids of their function)
+        return a["id"] == b["id"] and a.get("name") == b.get("name")
     if a.get("k") != b.get("k"):
         return False
     k = a["k"]
